@@ -131,9 +131,11 @@ class Summary:
         self.effects = {}     # (root, place) -> Effect
         self.ret = None       # AV or None
         self.field_writes = []  # (attr, file, line, construct) writes to self.<attr>
+        self.gsites = {}      # (file, func, construct, root) -> Effect : EVERY distinct sink site on a module-level root
+        #                       (effects keeps one representative per (root, place); a second writer must not hide behind it)
 
     def sig(self):
-        return (frozenset(self.effects), self.ret.key() if self.ret else None, len(self.field_writes))
+        return (frozenset(self.effects), self.ret.key() if self.ret else None, len(self.field_writes), len(self.gsites))
 
 
 class Engine:
@@ -340,6 +342,10 @@ class FuncAnalysis:
             if k not in self.out.effects:
                 self.out.effects[k] = Effect(r, rp, self.fi.file, getattr(node, "lineno", 0), self.fi.qualname,
                                              unparse(node)[:160], what)
+            if r.startswith("g:"):
+                gk = (self.fi.file, self.fi.qualname, unparse(node)[:160], r)
+                if gk not in self.out.gsites:
+                    self.out.gsites[gk] = Effect(r, rp, self.fi.file, getattr(node, "lineno", 0), self.fi.qualname, unparse(node)[:160], what)
 
     def sink(self, av, places, node, what):
         """Write to the given places of value av."""
@@ -1142,6 +1148,9 @@ class FuncAnalysis:
         if s is None:
             return fresh("TOP")
         site = f"{self.fi.file}:{getattr(e, 'lineno', 0)} {self.fi.short} -> {fi.short}"
+        for gk, eff in s.gsites.items():
+            if gk not in self.out.gsites:
+                self.out.gsites[gk] = eff.lifted(eff.root, eff.place, site)
         for (r, rp), eff in s.effects.items():
             if r in bind:
                 for (r2, rp2) in self.subst_pairs({(r, rp)}, bind):
@@ -1149,6 +1158,10 @@ class FuncAnalysis:
                     self.eng.sinks += 1
                     if k not in self.out.effects:
                         self.out.effects[k] = eff.lifted(r2, rp2, site)
+                    if r2.startswith("g:"):
+                        gk = (eff.file, eff.func, eff.construct, r2)
+                        if gk not in self.out.gsites:
+                            self.out.gsites[gk] = eff.lifted(r2, rp2, site)
             elif r.startswith("g:") or r.startswith("ctor:") or r == "self":
                 if r == "self" and "self" not in bind:
                     continue
@@ -1191,6 +1204,10 @@ class FuncAnalysis:
             fi = recv.inst.methods.get(m) or self._inherited(recv.inst, m)
             if fi is not None:
                 return self.call_internal(fi, args, kws, e, self_av=recv, star_kw=star_kw)
+            if m in X.MUTATING_METHODS:
+                # method inherited from a builtin container base (dict / list): mutates the instance itself
+                self.sink(recv, ("B", "C"), e, f".{m}() modifies the container in place")
+                return fresh("SC")
             self.eng.unresolved += 1
             return self.unknown_call(args, kws, star_kw)
         if recv.acc:
@@ -1427,6 +1444,9 @@ class FuncAnalysis:
                 s = self.eng.summ.get(kf.qualname)
                 if s:
                     site = f"{self.fi.file}:{e.lineno} {self.fi.short} -> apply_ufunc({kf.short})"
+                    for gk, eff in s.gsites.items():
+                        if gk not in self.out.gsites:
+                            self.out.gsites[gk] = eff.lifted(eff.root, eff.place, site)
                     for (r, rp), eff in s.effects.items():
                         if r in bind and rp == "B":
                             for k2 in bind[r].B:
